@@ -161,6 +161,30 @@ def check_property(prop, tier, repo, record=False, verbose=False):
         elif status == "harness-error":
             # an always-run scenario harness that crashes would otherwise pass for "nothing found"
             problems.append("the always-run stand-in of %s failed to run (see %s)" % (fn, os.path.relpath(path, VERIF)))
+    if tier == "thorough":
+        # thorough tier: besides the larger solver budgets and the extra back ends, every scenario harness registered
+        # for a function under contract of this property is run once on the real code (bounded evidence on top of the
+        # proofs: it exercises the assumed library models and interface contracts the proofs rest on)
+        try:
+            sys.path.insert(0, VERIF)
+            from replay import realisers as _R
+            keys = {}
+            for f in rep["functions"]:
+                q = f["function"].split(" [")[0]
+                k_ = _R.find_key(q)
+                if k_ is not None and k_ not in keys:
+                    keys[k_] = q
+            for k_, q in sorted(keys.items()):
+                if q in seen_fn:
+                    continue
+                seen_fn.add(q)
+                path, status = RP.standin(prop, q, "thorough tier: scenario harness of a verified function", repo, replay_dir)
+                standins.append({"function": q, "reason": "thorough tier: run in addition to the proof", "tool": "native scenario harness (replay/realisers.py)", "result": status,
+                                 "replay": os.path.relpath(path, VERIF) if path else None})
+                if status == "confirmed":
+                    vio_lines.append("VIOLATION property=%s replay=%s" % (prop, os.path.relpath(path, VERIF)))
+        except ImportError:
+            pass
     for o, k in known_hit:
         lines.append("KNOWN-FINDING: property=%s %s" % (prop, k["what"]))
     # --- evidence ------------------------------------------------------------------------
